@@ -433,8 +433,30 @@ def decode_cookie(pairs: list[tuple[str, str]], name: str, explode: bool | None,
     # a client may percent-encode or double-quote cookie values; accept those spellings as well
     if len(raw) >= 2 and raw[0] == raw[-1] == '"':
         readings += _simple(raw[1:-1], kind, False, lambda s: s)
+        readings += _simple(_cookie_unquote(raw[1:-1]), kind, False, lambda s: s)
     readings += _both(raw, pct_decode, lambda t, leaf: _simple(t, kind, False, leaf))
     return [r for r in readings if r is not None]
+
+
+def _cookie_unquote(text: str) -> str:
+    """Quoted-string spelling used by http.cookies / werkzeug: ``\\ooo`` is an octal byte, ``\\x`` is ``x``."""
+    out = bytearray()
+    i = 0
+    while i < len(text):
+        ch = text[i]
+        if ch == "\\" and i + 3 < len(text) + 0 and text[i + 1:i + 4].isdigit() and all(c in "01234567" for c in text[i + 1:i + 4]):
+            out.append(int(text[i + 1:i + 4], 8) & 0xFF)
+            i += 4
+        elif ch == "\\" and i + 1 < len(text):
+            out += text[i + 1].encode("latin-1", "replace")
+            i += 2
+        else:
+            out += ch.encode("latin-1", "replace")
+            i += 1
+    try:
+        return out.decode("utf-8")
+    except UnicodeDecodeError:
+        return out.decode("latin-1")
 
 
 def decode_json_content(text: str | None) -> list:
